@@ -128,6 +128,7 @@ type frame struct {
 	depth    int
 	callerPos token.Pos
 	entryGuard Term
+	parent   *frame // the frame this one is inlined into
 }
 
 func (f *frame) forkWith(c *Ctx) *frame {
@@ -523,6 +524,7 @@ func (f *frame) runLoop(li *loopInfo, order []*ssa.BasicBlock) {
 	type frameKey struct {
 		k, srt string
 		old    Term
+		excl   string // excluded objects (`frame modifies`), with %Q% for the bound variable
 	}
 	var frameKeys []frameKey
 	var heap1 *heapState
@@ -531,6 +533,7 @@ func (f *frame) runLoop(li *loopInfo, order []*ssa.BasicBlock) {
 		old := c.nalloc(be.heap)
 		c.assume(implies(be.reach, ge(c.nalloc(heap1), old)))
 		c.keepGhost(be.heap, heap1, dc.writes)
+		f.keepPrivateLoop(be.heap, heap1, h, li.blocks, be.reach)
 	} else {
 		heap1 = be.heap.clone()
 		var ws []string
@@ -571,12 +574,27 @@ func (f *frame) runLoop(li *loopInfo, order []*ssa.BasicBlock) {
 				// (it writes to memory allocated by the function only). Assumed for the havoced array
 				// here, proved at every back edge below.
 				c.nonFresh[k] = true
-				c.counter["q"]++
-				q := quote(fmt.Sprintf("q ref %d", c.counter["q"]))
-				old := c.heapGet(be.heap, k, srt)
-				c.assume(Term{fmt.Sprintf("(forall ((%s Int)) (! (=> (>= %s (- %s)) (= (select %s %s) (select %s %s))) :pattern ((select %s %s))))",
-					q, q, c.nalloc(f.entry).S, nv.S, q, old.S, q, nv.S, q), SBool})
-				frameKeys = append(frameKeys, frameKey{k, srt, old})
+				excl := ""
+				skip := false
+				if spec.FrameMod && f.contract != nil {
+					// `loop k: frame modifies`: ... except the objects named by the function's modifies clause
+					allowed, whole, all := f.frameAllowed(f.contract)
+					if all || whole[k] {
+						skip = true
+					}
+					for _, a := range allowed[k] {
+						excl += fmt.Sprintf(" (not (= %s %s))", "%Q%", a.S)
+					}
+				}
+				if !skip {
+					c.counter["q"]++
+					q := quote(fmt.Sprintf("q ref %d", c.counter["q"]))
+					old := c.heapGet(be.heap, k, srt)
+					ex := strings.ReplaceAll(excl, "%Q%", q)
+					c.assume(Term{fmt.Sprintf("(forall ((%s Int)) (! (=> (and (>= %s (- %s))%s) (= (select %s %s) (select %s %s))) :pattern ((select %s %s))))",
+						q, q, c.nalloc(f.entry).S, ex, nv.S, q, old.S, q, nv.S, q), SBool})
+					frameKeys = append(frameKeys, frameKey{k, srt, old, excl})
+				}
 			} else if k != allocKey {
 				c.nonFresh[k] = true
 			}
@@ -658,7 +676,7 @@ func (f *frame) runLoop(li *loopInfo, order []*ssa.BasicBlock) {
 			c.counter["q"]++
 			q := quote(fmt.Sprintf("q ref %d", c.counter["q"]))
 			cur := c.heapGet(es.heap, fk.k, fk.srt)
-			goal := Term{fmt.Sprintf("(forall ((%s Int)) (=> (>= %s (- %s)) (= (select %s %s) (select %s %s))))", q, q, c.nalloc(f.entry).S, cur.S, q, fk.old.S, q), SBool}
+			goal := Term{fmt.Sprintf("(forall ((%s Int)) (=> (and (>= %s (- %s))%s) (= (select %s %s) (select %s %s))))", q, q, c.nalloc(f.entry).S, strings.ReplaceAll(fk.excl, "%Q%", q), cur.S, q, fk.old.S, q), SBool}
 			c.oblige("frame", fmt.Sprintf("%s.frame:%s@back%d", lname, frameKeyName(fk.k), k.from.Index), es.cond, goal, f.pos(lastPos(k.from)), "loop frame: objects that existed at function entry are unchanged ("+frameKeyName(fk.k)+")")
 		}
 		if spec.Decreases != nil {
